@@ -33,7 +33,10 @@ IsDir(pr) == pr.ft = "known" /\ IsDirPath(pr.path)      \* an unknown type is no
 
 HasExtO(pr) == pr.path[Len(pr.path)] = "x.o"
 
+\* exts: extensions are configured; they are given as the list <<"o">> or, in every second configuration,
+\* as <<"zz", "o">> - the wanted extension need not be the first of the list
 Cfg(f, i, e, w, ig) == [filters |-> f, ignores |-> i, exts |-> e, whitelist |-> w, ignorefile |-> ig]
+ExtList(c) == IF ~c.exts THEN <<>> ELSE IF (Len(c.filters) + Len(c.ignores)) % 2 = 0 THEN <<"o">> ELSE <<"zz", "o">>
 
 \* the patterns that are not tied to the origin
 Floating(pats) ==
@@ -116,7 +119,7 @@ Emit ==
     done => PrintT(<<"CASE", ToJson([
         filters |-> [i \in DOMAIN cfg.filters |-> cfg.filters[i].text],
         ignores |-> [i \in DOMAIN cfg.ignores |-> cfg.ignores[i].text],
-        exts |-> cfg.exts, whitelist |-> cfg.whitelist,
+        exts |-> cfg.exts, extlist |-> ExtList(cfg), whitelist |-> cfg.whitelist,
         ignorefile |-> [i \in DOMAIN cfg.ignorefile |-> cfg.ignorefile[i].text],
         expect |-> {[ev |-> ev, pass |-> Verdict(cfg, ev)] : ev \in Events}])>>)
 =============================================================================
